@@ -111,7 +111,7 @@ def transfer_measures(ctx, rule='C02.R1', units=True):
     sc = targets.scan(ctx, 'Container._transfer')
     if units:
         uscan.report_sinks(ctx, lambda cat: rule if cat in ('convert-from-unit', 'sum-mix', 'add-units', 'to-storage',
-                                                            'qstr', 'qstr-format', 'storage-label', 'compare-units', 'store-contents',
+                                                            'qstr', 'qstr-format', 'truncating-division', 'storage-label', 'compare-units', 'store-contents',
                                                             'from-storage', 'round-then-scale') else None, sc)
     seen_units = set()
     uses_stored_volume = False
